@@ -445,6 +445,8 @@ pub struct Node {
 	/// terminal events (payment id, is PaymentSent) this incarnation inherited, still unhandled, in
 	/// the queue of the manager snapshot it was loaded from: generated by an earlier incarnation
 	pub inherited_terminal: Vec<([u8; 32], bool)>,
+	/// events offered to this node's handler so far (seed of the replay-request fault)
+	pub event_seq: u64,
 	/// channels this node reported closed (any reason) in this / in an earlier incarnation
 	pub closed_this_incarnation: BTreeSet<usize>,
 	pub closed_in_earlier_incarnation: BTreeSet<usize>,
@@ -611,6 +613,8 @@ pub struct World {
 	/// (node, chan): the node handed its commitment to the broadcaster and then crashed while
 	/// monitor writes of that channel were still `InProgress` (and were lost)
 	pub broadcast_on_lost_state: BTreeSet<(usize, usize)>,
+	/// reorganisations that drop the removed transactions keep those no live node would re-broadcast
+	pub readmit_foreign: bool,
 	/// batch-sweep checks already made: (node, number of outputs, first outpoint)
 	pub batch_sweep_checked: BTreeSet<(usize, usize, bitcoin::OutPoint)>,
 	/// C08: nodes currently cut off; nodes that were ever cut off or gone; last HTLC views
@@ -748,6 +752,7 @@ impl World {
 				outdated_chans: BTreeSet::new(),
 				ever_outdated_chans: BTreeSet::new(),
 				inherited_terminal: Vec::new(),
+				event_seq: 0,
 				closed_this_incarnation: BTreeSet::new(),
 				closed_in_earlier_incarnation: BTreeSet::new(),
 				loaded_gens: Vec::new(),
@@ -804,6 +809,7 @@ impl World {
 			last_reorg_step: 0,
 			revoked_after_broadcast: BTreeSet::new(),
 			broadcast_on_lost_state: BTreeSet::new(),
+			readmit_foreign: false,
 			batch_sweep_checked: BTreeSet::new(),
 			partitioned: BTreeSet::new(),
 			ever_unresponsive: BTreeSet::new(),
@@ -1588,8 +1594,31 @@ impl World {
 			None => return false,
 		};
 		let evs: RefCell<Vec<Event>> = RefCell::new(Vec::new());
+		// fault: the application's handler cannot deal with a payment event right now and asks for
+		// it to be replayed (`Err(ReplayEvent)`): the library stops handing out events, keeps this
+		// one and everything behind it, and offers them again at the next round. Never during
+		// setup, settle or liquidation (faults have stopped there).
+		let knob = *self.cfg.weights.get("ReplayEvent").unwrap_or(&0) as u64;
+		let may_refuse = knob > 0 && !self.in_settle && self.step > 0;
+		let base = self.cfg.node_seed ^ ((n as u64 + 1) << 40) ^ self.nodes[n].event_seq.wrapping_mul(0x9e37_79b9_7f4a_7c15);
+		let seen = std::cell::Cell::new(0u64);
+		let refused = std::cell::Cell::new(false);
 		let res = catch(|| {
 			mgr.process_pending_events(&|e: Event| {
+				let k = seen.get();
+				seen.set(k + 1);
+				let payment_event = matches!(
+					e,
+					Event::PaymentSent { .. }
+						| Event::PaymentFailed { .. } | Event::PaymentPathFailed { .. }
+						| Event::PaymentPathSuccessful { .. }
+						| Event::PaymentClaimed { .. }
+						| Event::PaymentForwarded { .. }
+				);
+				if may_refuse && payment_event && !refused.get() && simcore::fnv_extend(base, &k.to_le_bytes()) % knob == 0 {
+					refused.set(true);
+					return Err(lightning::events::ReplayEvent());
+				}
 				evs.borrow_mut().push(e);
 				Ok(())
 			});
@@ -1601,6 +1630,10 @@ impl World {
 		if let Err((m, l)) = res {
 			self.library_panic("Drain", m, l);
 			return false;
+		}
+		self.nodes[n].event_seq += seen.get();
+		if refused.get() {
+			self.out.bump("fault:event_handler_asked_for_replay");
 		}
 		let evs = evs.into_inner();
 		let any = !evs.is_empty();
